@@ -223,10 +223,21 @@ func ParseDateTime(value string) (*dtpb.DateTime, error) {
 	for _, format := range dateFormats {
 		t, err = time.Parse(format.format, value)
 		if err == nil {
+			precision := format.precision
+			if precision == dtpb.DateTime_SECOND {
+				// time.Parse accepts a fraction after the seconds even though the
+				// layout has none: the precision follows the digits that were given
+				switch fractionDigits(t) {
+				case 3:
+					precision = dtpb.DateTime_MILLISECOND
+				case 6:
+					precision = dtpb.DateTime_MICROSECOND
+				}
+			}
 			return &dtpb.DateTime{
 				ValueUs:   t.UnixMicro(),
 				Timezone:  extractTimezone(t),
-				Precision: format.precision,
+				Precision: precision,
 			}, nil
 		}
 	}
@@ -271,10 +282,19 @@ func ParseInstant(value string) (*dtpb.Instant, error) {
 	for _, format := range dateFormats {
 		t, err = time.Parse(format.format, value)
 		if err == nil {
+			precision := format.precision
+			if precision == dtpb.Instant_SECOND {
+				switch fractionDigits(t) {
+				case 3:
+					precision = dtpb.Instant_MILLISECOND
+				case 6:
+					precision = dtpb.Instant_MICROSECOND
+				}
+			}
 			return &dtpb.Instant{
 				ValueUs:   t.UnixMicro(),
 				Timezone:  extractTimezone(t),
-				Precision: format.precision,
+				Precision: precision,
 			}, nil
 		}
 	}
@@ -289,6 +309,20 @@ func MustParseInstant(value string) *dtpb.Instant {
 		panic(err)
 	}
 	return result
+}
+
+// fractionDigits reports how many fraction digits - 0, 3 or 6 - are needed to
+// show the sub-second part of t (anything finer than a microsecond is not kept
+// in a FHIR element).
+func fractionDigits(t time.Time) int {
+	micros := t.Nanosecond() / 1_000
+	switch {
+	case micros == 0:
+		return 0
+	case micros%1_000 == 0:
+		return 3
+	}
+	return 6
 }
 
 // yearZeroBase is the time set for 0000-01-01.
@@ -341,9 +375,18 @@ func ParseTime(value string) (*dtpb.Time, error) {
 		// form a time of '0', e.g. it forces all times to be relative to the
 		// unix epoch.
 		value := t.UnixMicro() - yearZeroBase.UnixMicro()
+		precision := format.precision
+		if precision == dtpb.Time_SECOND {
+			switch fractionDigits(t) {
+			case 3:
+				precision = dtpb.Time_MILLISECOND
+			case 6:
+				precision = dtpb.Time_MICROSECOND
+			}
+		}
 		return &dtpb.Time{
 			ValueUs:   value,
-			Precision: format.precision,
+			Precision: precision,
 		}, nil
 	}
 	return nil, fmt.Errorf("unable to parse time '%v': %w", value, err)
